@@ -513,7 +513,13 @@ def one_case(ck, rng, case):
 def judge_check(ck, label, st, cr, before, live, state, k, n, verify, desc, classify=None):
     """Oracle for one CheckResults object."""
     if st != "ok":
+        # every server answers every request while checks run (repair-time faults are cleared before), so a check that
+        # errbacks or hangs gives no verdict at all on a file whose shares the statement says it must count
         ck.observe("%s-did-not-complete:%s" % (label, st if st != "err" else _f(cr)[:60]))
+        ck.violation("check-gives-no-verdict/" + (cr.type.__name__ if st == "err" else st),
+                     "%s (verify=%s) %s instead of reporting healthy/recoverable: %s" % (
+                         label, verify, "errbacked" if st == "err" else "never completed", _f(cr)[:200] if st == "err" else st),
+                     dict(desc, op=label, verify=verify))
         return
     w = dict(desc, op=label, verify=verify)
     try:
